@@ -262,6 +262,84 @@ def gen_model(r, size=None):
     return m
 
 
+# parameter names of the chain templates and of the instances made from them: a small pool, so that an instance's own parameter often has
+# the NAME of a parameter of the template (or of an earlier instance) it binds -- different symbols in different scopes
+CHAIN_NAMES = ["n", "k", "x", "y"]
+CHAIN_FRESH = ["m", "fp"]
+CHAIN_TYPES = ["const int[1,3]"] * 5 + ["const int"] * 2 + ["int[1,3]"]     # mostly what a clean model needs: constant and bounded
+
+
+def add_instance_chain(r, m, fault=None):
+    """Appends to model m one template with 2-4 value parameters and a chain of 1-3 instantiations of it, each level binding some of
+    the still free parameters to constants and passing the others on through parameters of its own (`I(const int[1,3] x) = C(x, 2);
+    J = I(1);`).  Exercises what an instance records about its parameters: unbound ones first, one mapping entry per bound one, level
+    after level.  Some template parameters are `restricted` (used, directly or through a constant, as an array size or a scalar set size),
+    which makes the builder look the arguments up again.  fault: None | 'fewargs' | 'manyargs' | 'dupparam' | 'undeclared' at one level.
+    Returns the names of the instances in chain order."""
+    ti = len(m["templates"])
+    tn = "C%d" % ti
+    names = r.sample(CHAIN_NAMES, r.randint(2, len(CHAIN_NAMES)))
+    free = [(pn, r.choice(CHAIN_TYPES)) for pn in names]
+    env = Env()
+    env.consts += names
+    decls = []
+    for pn, ty in free:
+        c = r.random()
+        if not ty.startswith("const"):
+            c = 1.0                # a size or a bound must be computable at compile time
+        if c < 0.3:
+            decls.append("int a_%s[%s];" % (pn, pn))
+        elif c < 0.45:
+            decls.append("const int c_%s = %s + 1; bool b_%s[c_%s];" % (pn, pn, pn, pn))
+        elif c < 0.55:
+            decls.append("typedef scalar[%s] s_%s_t;" % (pn, pn))
+        elif c < 0.7:
+            decls.append("int[0,%s] v_%s;" % (pn, pn))
+            env.ints.append("v_%s" % pn)
+    locs = [{"id": "id%d_%d" % (ti, li), "name": "L%d" % li, "inv": None, "exprate": None, "urgent": False, "committed": False} for li in range(2)]
+    edges = [{"src": locs[0]["id"], "dst": locs[1]["id"], "select": [], "guard": "%s >= %s" % (r.choice(names), int_expr(r, env, 2)), "sync": None,
+              "assign": None, "prob": None, "controllable": True}]
+    m["templates"].append({"name": tn, "params": [("%s %s" % (ty, pn), "int") for pn, ty in free], "decls": decls, "locs": locs, "bps": [],
+                           "init": locs[0]["id"], "edges": edges, "env": env})
+    levels = r.randint(1, 3)
+    bad_level = r.randrange(levels) if fault else -1
+    cur, made = tn, []
+    for lvl in range(levels):
+        nm = "I%d_%d" % (ti, lvl)
+        own, args = [], []
+        for pn, ty in free:
+            c = r.random()
+            if (lvl < levels - 1 and c < 0.5) or c < 0.15:
+                # passed on through a parameter of the new instance: under the same name, under the name of another parameter, or a new one
+                q = r.choice([pn, pn, r.choice(CHAIN_NAMES), r.choice(CHAIN_NAMES), r.choice(CHAIN_FRESH)])
+                if q not in [o[0] for o in own]:
+                    own.append((q, ty if ty != "const int" or r.random() < 0.5 else "const int[1,3]"))
+                args.append(q if r.random() < 0.85 else "%s + 0" % q)
+            else:
+                args.append(str(r.randint(1, 3)))
+        if lvl == bad_level:
+            if fault == "fewargs" and args:
+                args.pop(r.randrange(len(args)))
+            elif fault == "manyargs":
+                args.insert(r.randrange(len(args) + 1), "1")
+            elif fault == "dupparam" and own:
+                own.append(own[0])
+            elif fault == "undeclared":
+                args[r.randrange(len(args))] = "undeclared_name"
+        head = "%s(%s)" % (nm, ", ".join("%s %s" % (ty, q) for q, ty in own)) if own else nm
+        m["system"].append("%s = %s(%s);" % (head, cur, ", ".join(args)))
+        made.append(nm)
+        cur, free = nm, own
+        if not free:
+            break
+    # the end of the chain is a process (a process set when parameters are left); now and then an inner level as well
+    m["processes"].append(cur)
+    for nm in made[:-1]:
+        if r.random() < 0.3:
+            m["processes"].append(nm)
+    return made
+
+
 def loc_name(t, lid):
     for l in t["locs"]:
         if l["id"] == lid:
